@@ -30,6 +30,23 @@ pub fn run(sc: &Value) -> Value {
             dt.push_clip(cp);
         }
         dt.set_transform(&ctm);
+        // optional history that must not matter: a layer pushed and popped (visible or not), a clip pushed and popped,
+        // after the transform was set and before the source is drawn (the source stays fixed in the same user space)
+        match sc["pre"].as_str() {
+            Some("layer") => {
+                dt.push_layer(1.0);
+                dt.pop_layer();
+            }
+            Some("layer0") => {
+                dt.push_layer(0.0);
+                dt.pop_layer();
+            }
+            Some("clip") => {
+                dt.push_clip_rect(IntRect::new(IntPoint::new(0, 0), IntPoint::new(w, h)));
+                dt.pop_clip();
+            }
+            _ => {}
+        }
         let o = DrawOptions { blend_mode: if clip.is_some() { BlendMode::SrcOver } else { BlendMode::Src }, alpha, antialias: AntialiasMode::Gray };
         match via {
             "fill" => {
